@@ -67,13 +67,28 @@ def gen():
     """Regenerate Gen/*.v from the current /repo tree.  Returns list of failed translators."""
     os.makedirs(GEN, exist_ok=True)
     failed = []
-    for script in ("gen_eval.py", "gen_facts.py"):
-        path = os.path.join(VERIF, "tools", "translate", script)
-        if not os.path.exists(path):
-            continue
-        rc, out, err, _ = run([PY, path, GEN], env=env_for_repo(), cwd=REPO, timeout=300)
-        if rc != 0:
-            failed.append({"translator": script, "stderr": err[-2000:]})
+    # translate into a scratch directory and replace only the files whose text changed: on an unchanged source tree nothing
+    # is rewritten, nothing is rebuilt, and checks running side by side never see each other's half-built .vo files
+    tmp = tempfile.mkdtemp(prefix="verif_gen_")
+    try:
+        for script in ("gen_eval.py", "gen_facts.py"):
+            path = os.path.join(VERIF, "tools", "translate", script)
+            if not os.path.exists(path):
+                continue
+            rc, out, err, _ = run([PY, path, tmp], env=env_for_repo(), cwd=REPO, timeout=300)
+            if rc != 0:
+                failed.append({"translator": script, "stderr": err[-2000:]})
+        with Lock():
+            for fn in sorted(os.listdir(tmp)):
+                src, dst = os.path.join(tmp, fn), os.path.join(GEN, fn)
+                if os.path.isfile(src):
+                    new = open(src, "rb").read()
+                    if not os.path.exists(dst) or open(dst, "rb").read() != new:
+                        with open(dst + ".tmp", "wb") as f:
+                            f.write(new)
+                        os.replace(dst + ".tmp", dst)
+    finally:
+        shutil.rmtree(tmp, ignore_errors=True)
     return failed
 
 
